@@ -198,6 +198,35 @@ def batch_data_sensitivity(ctx):
                                       f"two graphs wrapping {np.dtype(dt)} arrays of {n} entries that differ in entry {pos} "
                                       f"(layout {lname}) get the same persistent key",
                                       {"size": n, "dtype": str(np.dtype(dt)), "position": pos, "layout": lname})
+    # differently strided VIEWS of one buffer that start at one address (anything caching a digest per buffer must
+    # look at the strides), hashed in one process and in both orders; a view and an equal private copy agree
+    base = (np.arange(64, dtype=np.float64) * 1.5 - 7)
+    sq = base[:16].reshape(4, 4)
+    b2 = base[:8].reshape(2, 4)
+    pairs = {"matrix/transposed-view": (sq, sq.T), "a[::2]/a[:4]": (base[::2][:4], base[:4]),
+             "b[:, :2]/b.reshape(4,2)[:2]": (b2[:, :2], b2.reshape(4, 2)[:2]),
+             "a[::3][:5]/a[::2][:5]": (base[::3][:5], base[::2][:5]),
+             "reversed/forward": (base[7::-1], base[7:15]) if False else (base[:8][::-1][::-1], base[:8]),
+             "F-order-view/C": (np.asfortranarray(sq).T, sq)}
+    for order in ("ab", "ba"):
+        kb2 = PytatoKeyBuilder()
+        for lbl, (a, b) in pairs.items():
+            if order == "ba":
+                a, b = b, a
+            cases += 1
+            ka, kb_ = kb2(pt.make_data_wrapper(a)), kb2(pt.make_data_wrapper(b))
+            same_contents = a.shape == b.shape and np.array_equal(a, b)
+            if (ka == kb_) != same_contents:
+                dis += 1
+                ctx.violation("key-not-injective:wrapped-data-views" if not same_contents else "key-unstable:data-layout",
+                              f"views {lbl} ({order}) of one buffer: contents {'equal' if same_contents else 'differ'}, "
+                              f"keys {'equal' if ka == kb_ else 'differ'}", {"pair": lbl, "order": order})
+            for nm, v in (("first", a), ("second", b)):
+                cases += 1
+                if kb2(pt.make_data_wrapper(v)) != kb2(pt.make_data_wrapper(v.copy())):
+                    dis += 1
+                    ctx.violation("key-unstable:data-layout",
+                                  f"view {lbl} ({nm}) and an equal private copy of it get different keys", {"pair": lbl})
     ctx.note_batch("wrapped-data-sensitivity", cases, dis, exhaustive=False, sizes=sizes)
 
 
